@@ -4,7 +4,7 @@ import os
 import re
 
 from .. import fake_ai, run, scenario
-from .common import (Case, HELD, VIOLATED, INCONCLUSIVE, TERM, bad_outcome, files_text, h, rng)
+from .common import (Case, HELD, VIOLATED, INCONCLUSIVE, TERM, bad_outcome, files_text, h, rng, tsan_collect, tsan_env)
 from . import c11
 
 ID = "C20"
@@ -101,8 +101,10 @@ def run_job(job, ctx):
                 env.update(TERM)
             if cfg["workers"]:
                 env["TOKIO_WORKER_THREADS"] = cfg["workers"]
+            tsan_dir = None
             if fl == "tsan":
-                env["TSAN_OPTIONS"] = "halt_on_error=0:exitcode=66"
+                tsan_dir = run.fresh_dir("tsan")
+                tsan_env(env, tsan_dir)
             order = list(s.files)
             if cfg["order"] == "shuffled":
                 r.shuffle(order)
@@ -116,6 +118,7 @@ def run_job(job, ctx):
                               affinity={r.randrange(ncpu)} if cfg["affinity"] else None)
             finally:
                 run.rm(root)
+            res.sig = tsan_collect(tsan_dir)[0] if tsan_dir else []
             results.append(res)
             configs.append(cfg)
         out.append(judge(s, diff, malformed, results, configs, dict(job, j=j), fl))
@@ -136,7 +139,7 @@ def judge(s, diff, malformed, results, configs, desc, fl):
             return Case(INCONCLUSIVE, key=key, summary="wall timeout", evals=len(results))
     # TSan: reproducible report = violation, single = inconclusive
     if fl == "tsan":
-        reports = [TSAN_RE.findall(r_.err_text()) for r_ in results]
+        reports = [list(r_.sig or []) for r_ in results]
         hit = [k for k, rp in enumerate(reports) if rp]
         if len(hit) >= 2:
             kinds = sorted({x.strip() for rp in reports for x in rp})
